@@ -98,7 +98,7 @@ Section Keys.
     exists i, bf. split; [exact F|].
     unfold with_txout_secrets, asset_blind, dom. rewrite surjection_targets_secrets. cbn [obind].
     unfold sp_new. rewrite F. cbn [obind]. unfold value_blind, value_blind_with_shared_secret. cbn [fst snd].
-    rewrite pedersen_new_ok by (pose proof qn_big; lia). cbn [obind].
+    rewrite min_guard by lia. rewrite pedersen_new_ok by (pose proof qn_big; lia). cbn [obind].
     rewrite rp_new_some by (unfold I64_MAX; lia). cbn [obind].
     unfold wts_out, scommit, sgen. rewrite map_map. reflexivity.
   Qed.
@@ -109,6 +109,7 @@ Section Keys.
     unfold with_txout_secrets, asset_blind, dom. rewrite surjection_targets_secrets. cbn [obind].
     unfold sp_new. destruct (find_tag _ _ 0) as [[i bf]|] eqn:F; [|discriminate]. cbn [obind].
     unfold value_blind, value_blind_with_shared_secret, pedersen_new. cbn [fst snd].
+    destruct (s_value s <? RANGEPROOF_MIN_VALUE); [discriminate|].
     destruct (geqb _ gzero); [discriminate|]. cbn [obind]. unfold rp_new.
     destruct ((RANGEPROOF_MIN_VALUE <=? s_value s) && (s_value s <=? I64_MAX)) eqn:R; [|discriminate]. cbn [obind].
     intros [= <-]. exists i, bf. split; [reflexivity|]. split.
